@@ -146,7 +146,15 @@ XercesDocumentWrapper::create(
 
 XercesDocumentWrapper::~XercesDocumentWrapper()
 {
-    destroyWrapper();
+    using std::for_each;
+
+    // Delete the nodes.  Unlike destroyWrapper(), there is no need
+    // to make the wrapper usable again, which would allocate a new
+    // navigator, so nothing can fail here...
+    for_each(
+            m_nodes.begin(),
+            m_nodes.end(),
+            DeleteFunctor<XalanNode>(m_nodes.getMemoryManager()));
 }
 
 
